@@ -58,7 +58,7 @@ def run(chk, tier):
         chk.inst("R-TAB", g, "prefix:none", bool(init) and cval(init[0]["c"][0]) == E.get("HWLOC_CALC_APPEND_ADD"), "no prefix means union (HWLOC_CALC_APPEND_ADD)")
     chk.rule("R-SETKIND", "cpusets and nodesets never mixed in the tools (bitmap operations and argument passing)")
     ns = setkind.run(chk, P, UTIL_UNITS + LSTOPO_UNITS)
-    chk.floor("R-SETKIND", "kinded bitmap operations in the tools", ns, 80)
+    chk.floor("R-SETKIND", "kinded bitmap operations in the tools", ns, 60)
     chk.rule("R-NULLFIELD", "optional object names/subtypes are tested before being used as strings")
     nn = nullness.nullable_fields(chk, P, UTIL_UNITS + LSTOPO_UNITS)
     chk.floor("R-NULLFIELD", "string uses of object name/subtype in the tools", nn, 10)
@@ -68,7 +68,7 @@ def run(chk, tier):
     for u in UTIL_UNITS:
         v, us = N.run(chk, u)
         tv += us
-    chk.floor("R-NULLATTR", "checked uses", tv, 30)
+    chk.floor("R-NULLATTR", "checked uses", tv, 22)
     chk.rule("R-EXPORT", "lstopo's XML and synthetic outputs are the library exports of the topology it loaded")
     for un, fn, callee in (("lstopo-xml.c", "output_xml", "hwloc_topology_export_xml"), ("lstopo-text.c", "output_synthetic", "hwloc_topology_export_synthetic")):
         u = P.unit(un)
@@ -95,7 +95,7 @@ def run(chk, tier):
         chk.inst("R-DISTRIB", d, "single-call", ok, "one hwloc_distrib call fills the printed array (%s)" % why)
     chk.rule("R-PROG", "loop progress in the tools")
     nl = progloops.run(chk, P, UTIL_UNITS)
-    chk.floor("R-PROG", "in-scope loops", nl, 25)
+    chk.floor("R-PROG", "in-scope loops", nl, 18)
     chk.decided += ["hwloc-calc's operators map to the documented set operations", "tools never mix cpusets and nodesets", "no NULL object name/subtype or optional argument pointer is used as a string (no crash on unnamed objects)",
                     "lstopo's XML/synthetic outputs come from the library exports of the loaded topology", "hwloc-distrib prints what its single hwloc_distrib call returned"]
     chk.undecided += ["that the printed set equals the API-computed set", "--largest / -I / -N / --single equivalences", "hwloc-diff | hwloc-patch file equality", "non-zero exit status on every malformed argument"]
